@@ -6,7 +6,12 @@ RULE = ("one evaluation = one job execution observed on a real StdScheduler by i
         "BlockingExecution with 20 jobs due at once and 25..35 ms jobs (max in flight must be 1), the same with an additional WorkerLimit 2/4/8 (must still be 1 "
         "and no worker goroutine may exist), WorkerLimit n in {1,2,4,16} with 3n jobs due at once whose Execute waits at a barrier of size n (max in flight <= n is a "
         "hard bound; the barrier passing within 5 s shows n executions genuinely in parallel), and the default mode with one execution that never returns plus 20 "
-        "other due jobs and the blocked job's own 50 ms fire times (all must start within 2 s). A scenario is non-trivial when more jobs are due than the bound "
+        "other due jobs and the blocked job's own 50 ms fire times (all must start within 2 s). Second set (pool2.go): PauseJob then ResumeJob of a job from another goroutine "
+        "while one of its executions is in progress, default mode and WorkerLimit 2 (a short-interval sibling must start 3 more times within 3 s after each call, both calls "
+        "return within 3 s, the resumed job's own next fire time starts within 3 s); 3..6 jobs whose fire times are identical to the nanosecond (one shared custom trigger, equal "
+        "custom triggers, cron `* * * * * *`) in the default mode, every execution lasting until all are in progress (barrier passed within 5 s); WorkerLimit n with all n workers "
+        "busy with executions that ignore their context and a further due job in the loop's hand-off, then Stop() or cancellation of the Start context (max in flight <= n in "
+        "that very run, no restart). A scenario is non-trivial when more jobs are due than the bound "
         "allows (always); distinct by (mode, n). No exact differential run against the Lean model (real interleavings are not replayable): the theorems cover "
         "every interleaving of the model, the tie is the regenerated shape of the dispatch switch / startWorkers / dispatch channel plus this run")
 
